@@ -60,10 +60,13 @@ def pre_mp(bi: int, n: int, n0: int, fi0: int, enc0: bool, c0: int, n1: int, c1:
     if not (1 <= n <= 2 and 0 <= cti < len(CTYPES) and 0 <= n0 < P.NN and 0 <= c0 < P.NCT):
         return False
     if n == 2:
-        if not (0 <= n1 < P.NN and 0 <= c1 < P.NCT):
+        # second part: contents from the first NC1 pool entries; Content-Type variety only in one-part forms
+        if not (0 <= n1 < P.NN and 0 <= c1 < P.NC1 and (cti == 0 or P.CT2)):
             return False
     elif not (n1 == 0 and c1 == 0):
         return False
+    if fi0 == 0 and (enc0 or cti != 0):
+        return False      # no filename: parameter encoding / Content-Type choices are irrelevant (pinned)
     if P.exclude and classify_mp(fi0=fi0, enc0=enc0, n0=n0, n1=n1, n=n) in P.exclude:
         return False
     return True
@@ -81,8 +84,8 @@ def classify_mp(**kw):
 
 @harness(
     pre=pre_mp, classify=classify_mp,
-    quick=dict(NN=3, NCT=3, timeout=120, reach_timeout=120),
-    thorough=dict(NN=len(NAMES), NCT=len(CONTENTS), timeout=900, reach_timeout=300),
+    quick=dict(NN=3, NCT=3, NC1=2, CT2=0, timeout=120, reach_timeout=120),
+    thorough=dict(NN=len(NAMES), NCT=len(CONTENTS), NC1=len(CONTENTS), CT2=1, timeout=900, reach_timeout=300),
     nshards=len(FILENAMES) * len(BOUNDARIES),
     reach=["file_part", "field_part", "two_parts_same_name", "rfc2231_filename", "quoted_special_name"],
     units=["httputil.parse_body_arguments", "httputil.parse_multipart_form_data", "httputil._parse_header",
